@@ -31,6 +31,13 @@ fn gen(seed: u64, idx: u64, tier: Tier) -> Plan {
         _ => 1 + rng.below(64) as i64,
     };
     s.log_level = Some(*rng.pick(&[0u8, 0, 3, 4]));
+    // every eighth fault-free run boots the repository's own main() under a seeded combination of
+    // the settings that shape the process around the workers
+    let full = idx % 80 == 4 || idx % 80 == 45;
+    if full {
+        process_settings(&mut rng, &mut s);
+        s.log_level = None;
+    }
     world_knobs(&mut rng, &mut plan, profile == 6 || profile == 7);
     if profile == 7 {
         plan.world.faults.recv_err = 30;
@@ -50,7 +57,7 @@ fn gen(seed: u64, idx: u64, tier: Tier) -> Plan {
             max_burst: if rng.chance(1, 3) { 200 } else { 2 * s.batch_size as u32 + 2 },
             ietf_permille: *rng.pick(&[0u32, 300, 500, 700, 1000]),
             with_srv_permille: 300,
-            start_us: 6000,
+            start_us: if full { 25_000 } else { 6000 },
         }
     };
     plan.params.insert("grease_p".into(), s.fault_pct);
